@@ -73,3 +73,23 @@ CLAIMED["C11"] = dict(
     not_decided="all rate statements (cold start level, reaching the full threshold, no starvation), monotonicity of the interpolation, non-negativity of the warm-up threshold.")
 for _p in ["C05","C06","C11"]:
     NA.pop(_p, None)
+
+CLAIMED["C13"] = dict(
+    technique="static analysis: SSA value-flow of validated rule lists, nil-dereference of caller-supplied elements, field-store effect over the load cone, keyed-update scope check, co-update of twin maps",
+    decided="no load entry point (6 modules x whole-set / per-resource) dereferences a caller-supplied rule element without a nil test or recover; every list handed to a builder and every list / rule stored in an enforced or reported map contains only elements accepted by the validity function on a dominating branch (both paths); no function on the load path writes a field of the caller's rule (so reflect.DeepEqual against the cached input stays meaningful and an identical reload is 'unchanged'); the per-resource path writes only its own resource key, the whole-set path replaces the maps by fresh ones, enforced / reported / cached maps are co-updated; getters return copies built from the enforced (or co-updated reported) map.",
+    not_decided="that traffic is in fact governed by those objects (C02-C07); divergence of reported and enforced sets when a valid rule cannot be built (unsupported strategy); 'in order' beyond builders appending in input order.")
+CLAIMED["C14"] = dict(
+    technique="static analysis: equality-function audit (same-field comparisons, field coverage, reflexivity through short-circuit CFG), SSA value-identity in the builders, rule immutability, published-slice immutability",
+    decided="the three equality functions compare only a field with itself, cover every rule field except the descriptive id, and return false only where a same-field comparison failed (field-identical rules compare equal, incl. user-defined strategies); on the equal branch the builders append the old object itself and invoke no generator, on the statistic-reusable branch the generator receives the old object's statistic; the load path never mutates the caller's rule; published per-resource lists are never modified in place.",
+    not_decided="behavioural invisibility itself (a metamorphic relation over pairs of runs): that the reused object's later decisions equal those without reload.")
+CLAIMED["C15"] = dict(
+    technique="static analysis: must-hold lockset dataflow with call-site entry locksets against a frozen guarded-by table, atomic-only discipline, escape of in-place-mutated inner maps, published-slice taint, lock-order graph, adapter chain-mutation check",
+    decided="every access to the rule maps, node map, caches and their cached inputs holds the guarding mutex in the right mode (or the module's update mutex when all writers hold both); inner maps that are mutated in place are never used after the lock is released; per-resource slices read from enforced maps are never appended to or element-stored (a request sees entirely the old or the new list) and each rule-check slot reads its list exactly once per request; every field accessed through sync/atomic anywhere is accessed atomically everywhere in live code; LruCacheMap takes the write lock around every mutating LRU operation (incl. Get); the lock-order graph is acyclic; no adapter mutates the shared global slot chain on the request path.",
+    not_decided="race freedom of state outside the table and outside atomic fields (the thorough tier lists unguarded package variables for review); deadlock freedom beyond lock order; atomicity of a request across the check and statistic phases; circuitbreaker.stateChangeListeners and the generator maps (documented as not thread-safe, outside the property's API list).")
+CLAIMED["C18"] = dict(
+    technique="static analysis: struct-tag / composite-literal table agreement, error-propagation path check in parsers and updaters, sibling agreement, recover coverage, watcher event shape",
+    decided="DefaultPropertyHandler.Handle recovers panics and Base.Handle reaches converters only through it; the hotspot wire struct has a same-named JSON field for every JSON field of hotspot.Rule and the converter sets every field (the other parsers decode into the module's own type); decode errors propagate as non-nil errors and empty payloads yield a nil property; the five updaters map nil to the same module's ClearRules, the module's own slice type to its LoadRules, anything else and any LoadRules error to an error; converters and loaders tolerate null elements; file Rename/Remove events lead to Handle(nil), other events to a re-read.",
+    not_decided="idempotence over delivery sequences and the resulting state of the rule managers (dynamic), fsnotify event sequences, the JSON decoder itself.")
+for _p in ["C13","C14","C15","C18"]:
+    NA.pop(_p, None)
+NA["C17"] = "check not built yet in this session (work in progress)"
